@@ -174,7 +174,7 @@ def generate(rnd, tier, scale):
             d = RC.denote(tree)
         except (IndexError, RecursionError):
             continue
-        if sum(1 for _ in d) > 400:
+        if sum(1 for _ in d) > 400 or RC.count_paths(tree) > (1500 if tier == "quick" else 6000):
             continue
         made += 1
         yield dict(tree=tree)
